@@ -322,6 +322,37 @@ def run(ctx):
                                      note='history: both table years asked for the same code in one process',
                                      replay_py='out = []\nfor y in (%s):\n    out.append((y, athlib.wma_world_best(%r, %r, year=y), athlib.wma_age_factor(%r, 40.5, %r, year=y)))\nresult = out' % (', '.join(order), g, code, g, code))
     ctx.count(ncross, 'cross_year_calls')
+    # ---- every tabulated event looked up just before a non-tabulated distance on the same grader (one distance between
+    # every two neighbouring rows, one before the first and one after the last): what the row look-up of the call
+    # before left behind must not change the bracket of this one; judged against the exact Python oracle
+    nstir = 0; nbads = 0
+    for g in 'mf':
+        for y in W.YEARS:
+            t = T[y]
+            names = sorted(info[(y, g)][4])
+            ms = sorted({int(r.km * 1000) for r in t.rows[g][t.run_start(g):]})
+            mids = [ms[0] // 2] + [(a + b) // 2 for a, b in zip(ms, ms[1:]) if b - a > 1] + [ms[-1] + 1000]
+            allnames = {n for yy in W.YEARS for n in info[(yy, g)][4]}
+            mids = [d for d in mids if DMIN <= d <= DMAX and str(d) not in allnames]
+            for name in names:
+                for d in mids:
+                    code = str(d)
+                    try: athlib.wma_age_factor(g, 40.5, name, year=int(y))
+                    except Exception: pass
+                    for rq, call in ((('factor', y, g, 81, code, None, '', None), lambda: athlib.wma_age_factor(g, 40.5, code, year=int(y))),
+                                     (('best', y, g, None, code, None, '', None), lambda: athlib.wma_world_best(g, code, year=int(y)))):
+                        im = W.canon_py(call); want = H.oracle(T, codes, rq); nstir += 1
+                        okv = (im[0] == 'v' and want[0] == 'v' and abs(im[1] - float(want[1])) <= 1e-9 * abs(float(want[1]))) or (im[0] != 'v' and want[0] != 'v')
+                        if not okv:
+                            nbads += 1
+                            if nbads <= 6:
+                                ctx.fail(H.fn_name(rq), H.human_args(rq) + ['asked just after the tabulated event %s' % name],
+                                         ('%.12g' % float(want[1])) if want[0] == 'v' else want[1], H.show(im),
+                                         note='history: a tabulated event looked up on the same grader just before',
+                                         replay_py='athlib.wma_age_factor(%r, 40.5, %r, year=%s)\nresult = (athlib.wma_age_factor(%r, 40.5, %r, year=%s), athlib.wma_world_best(%r, %r, year=%s))' % (g, name, y, g, code, y, g, code, y))
+    ctx.count(nstir, 'after_tabulated_event_calls')
+    if nbads:
+        classes['after-tabulated-event [history]'] = nbads
     if nbadc:
         classes['cross-year [history]'] = nbadc
     ctx.count(tot.get('factor_calls', 0), 'factor_lines')
